@@ -21,7 +21,7 @@ from apischema.utils import to_camel_case
 PROP = "C10"
 RULE = (
     "classes with 3 fields (a_x required, b aliased 'bee' with default, c with default) and 1..2 validators (plus 3 on "
-    "a reduced alphabet: 12 (deps, kind) descriptors in quick, 16 in thorough): each validator has an enumerated dependency set (every non-empty subset of the fields, read "
+    "a reduced alphabet: 12 (deps, kind) descriptors in quick, 16 in thorough): each validator has an enumerated dependency set (every subset of the fields — the empty one included: such a validator never runs —, read "
     "directly, through a helper method, through two helper methods calling each other, through a property, plus an init-only parameter (InitVar field) taken by the first validator, through a functools.cached_property, or through a diamond of helper methods shared by the validators), a kind in {plain, validator(field), validator(f, discard=g), validator(discard=g) for "
     "every field g}, an error style in {raise, yield message, yield (get_alias(self).f, message), yield (0, message)}, declared in the class or "
     "in a base class, or in a generic class deserialized as V[int] (also with the helper method it reads overridden in the subclass deserialized); x every datum assigning each field one of {absent, valid, invalid} x every pass/fail vector x aliaser "
@@ -72,7 +72,10 @@ def validator_src(name: str, deps, kind, style, by_name: bool = False, cycle: bo
         read_ax = "self.cyc_a(1)" if name == "v0" else "self.cyc_b(1)"
     # c is read through a property by the first validator and through a functools.cached_property by the others
     read_c = READ["c"] if name == "v0" else "self.cached_c"
-    L.append("        _ = (" + ", ".join((read_ax if d == "a_x" else read_c if d == "c" else READ[d]) for d in deps) + ",)")
+    if deps:
+        L.append("        _ = (" + ", ".join((read_ax if d == "a_x" else read_c if d == "c" else READ[d]) for d in deps) + ",)")
+    else:
+        L.append("        _ = vars  # reads no field at all: no dependency, hence never 'provided'")
     if style == "raise":
         L.append(f"        if SWITCH[{name!r}]:")
         L.append(f"            raise ValidationError({name + ' failed'!r})")
@@ -310,6 +313,14 @@ def class_space(tier: str) -> Iterator[Tuple[List[tuple], bool]]:
     for (d0, k0), (d1, k1) in itertools.product(dk, dk):
         if all(d in ("a_x", "b") for d in d0) and k0[1] in (None, "a_x", "b"):
             yield [("v0", d0, k0, "raise"), ("v1", d1, k1, "raise")], True
+    # validators reading no field (empty dependency set): never run, whatever the data; alone and next to another one
+    for kind in [("plain", None), ("field", "b"), ("discard", "a_x")]:
+        for style in ("raise", "yield"):
+            yield [("v0", (), kind, style)], False
+    for d1, k1 in dk:
+        if k1[0] in ("plain", "field"):
+            yield [("v0", (), ("plain", None), "raise"), ("v1", d1, k1, "raise")], False
+            yield [("v0", d1, k1, "raise"), ("v1", (), ("discard", "c"), "yield")], False
     # generic classes deserialized through a parametrized alias
     for deps, kind, style in singles:
         yield [("v0", deps, kind, style)], "generic"
